@@ -449,6 +449,97 @@ def bary_inside(p, tri, tol=1e-9):
     return np.linalg.norm(r) < tol * (1 + np.linalg.norm(m)) and st[0] > -tol and st[1] > -tol and st.sum() < 1 + tol
 
 
+def check_union_property(gs, u, swapped, mode, given, name, fails):
+    """The property predicate of union() on the implementation: geometry kept / reversed per input grid; two elements get
+    the same union index iff they come from the same input grid and had the same index there (given indices: the given
+    constant per grid; normalised: indices are 0..N-1); extracting one input grid's indices gives that grid back."""
+    from bempp_cl.api.grid.grid import grid_from_segments
+
+    def bad(sig, what, **data):
+        fails.append({"signature": sig, "what": "%s on %s" % (what, name),
+                      "data": dict(mesh=name, mode=mode, swapped=swapped, given=given,
+                                   grids=[{"nv": int(g.number_of_vertices), "els": [[int(x) for x in c] for c in g.elements.T],
+                                           "dom": [int(d) for d in g.domain_indices]} for g in gs], **data)})
+    sw = swapped or [False] * len(gs)
+    want = np.vstack([area_vec(g) * (-1 if s else 1) for g, s in zip(gs, sw)])
+    U = area_vec(u)
+    if U.shape != want.shape or np.max(np.abs(U - want)) > 1e-12 * (1 + np.max(np.abs(want))):
+        bad("grid.union:area-or-orientation", "union does not keep / reverse the area vectors")
+        return
+    d = u.domain_indices.astype(np.int64)
+    off = np.cumsum([0] + [g.number_of_elements for g in gs])
+    parts = [d[off[j]:off[j + 1]] for j in range(len(gs))]
+    if given is not None:
+        if any(np.any(pj != given[j]) for j, pj in enumerate(parts)):
+            bad("grid.union:given-domain-indices", "explicit domain indices not attached")
+        return
+    keys = {}
+    for j, (g, pj) in enumerate(zip(gs, parts)):
+        for x, y in zip(g.domain_indices, pj):
+            keys.setdefault(int(y), set()).add((j, int(x)))
+    src = {}
+    for y, ks in keys.items():
+        if len(ks) > 1:
+            same_grid = len({k[0] for k in ks}) == 1
+            bad("grid.union:domain-partition" if same_grid else "grid.union:domain-overlap",
+                ("two domains of one input grid are merged" if same_grid else
+                 "elements of different input grids receive the same domain index %d" % y), index=int(y))
+            return
+        for k in ks:
+            if src.setdefault(k, y) != y:
+                bad("grid.union:domain-partition", "one input domain is split by the union")
+                return
+    for k in list(src):
+        pass
+    if len(set(src.values())) != len(src):
+        bad("grid.union:domain-partition", "domains merged")
+        return
+    if mode == 0 and sorted(set(int(x) for x in d)) != list(range(len(set(int(x) for x in d)))):
+        bad("grid.union:not-normalised", "normalised domain indices are not 0..N-1")
+    # per-grid extraction through grid_from_segments
+    for j, (g, pj) in enumerate(zip(gs, parts)):
+        sub = grid_from_segments(u, sorted(set(int(x) for x in pj)))
+        if sub.number_of_elements != g.number_of_elements or \
+                np.max(np.abs(area_vec(sub) - area_vec(g) * (-1 if sw[j] else 1))) > 1e-12 * (1 + np.max(np.abs(want))):
+            bad("grid.union:segment-extraction", "extracting input grid %d from the union by its domain indices does not "
+                "give that grid back" % j, grid=j)
+            return
+
+
+def check_multi_union(rng, fails, counter):
+    """Unions of 3 and 4 grids x {normalised, not normalised, explicit indices} x swapped_normals."""
+    from bempp_cl.api import Grid
+    from bempp_cl.api.grid.grid import union
+    pool = []
+    for k, (gen, doms) in enumerate(((M.tetrahedron, [2, 2, 5, 5]), (M.octahedron, [0, 1, 1, 3, 3, 3, 0, 7]),
+                                     (lambda: M.screen(2), [4, 4, 4, 9, 9, 1, 1, 1]), (M.tetrahedron, [0, 0, 0, 0]),
+                                     (M.cube12, [3] * 6 + [8] * 6))):
+        v, e = gen()
+        pool.append(Grid(v + 4.0 * k, e, np.array(doms, dtype="uint32")))
+    for n in (3, 4):
+        for rep in range(3):
+            idx = rng.choice(len(pool), n, replace=False)
+            gs = [pool[i] for i in idx]
+            for mode in (0, 1, 2):
+                for swapped in (None, [bool(rng.integers(2)) for _ in gs]):
+                    given = [int(x) for x in rng.integers(0, 5, size=n)] if mode == 2 else None
+                    kw = {"normalize_domain_indices": mode == 0}
+                    if given is not None:
+                        kw = {"domain_indices": given}
+                    counter[0] += 1
+                    name = "union of %d grids (pool %s)" % (n, [int(i) for i in idx])
+                    try:
+                        import warnings
+                        with warnings.catch_warnings():
+                            warnings.simplefilter("ignore")
+                            u = union(gs, swapped_normals=swapped, **kw)
+                    except Exception as ex:
+                        fails.append({"signature": "grid.union:raises-on-valid-input", "what": "%s: %s" % (name, type(ex).__name__),
+                                      "data": {"mesh": name, "mode": mode}})
+                        continue
+                    check_union_property(gs, u, swapped, mode, given, name, fails)
+
+
 def check_derived(g, name, fails, counter, rng):
     from bempp_cl.api.grid.grid import union, grid_from_segments
 
@@ -583,7 +674,43 @@ def run_search(rng, thorough, out):
                 import traceback
                 fails.append({"signature": "Grid:exception-on-valid-mesh", "what": "%s on %s: %s" % (
                     type(ex).__name__, name, traceback.format_exc()[-600:]), "data": {"mesh": name}})
+    check_multi_union(rng, fails, counter)
     out["search_evals"] = counter[0]
+
+
+def recheck_cases(cfg, rng, out):
+    """Evaluate the property predicates on exactly the cases on which library and model disagreed."""
+    from bempp_cl.api import Grid
+    from bempp_cl.api.grid.grid import union
+    import warnings
+    counter = [0]
+    fails = out["failures"]
+
+    def q(p):
+        return p[0] / p[1]
+    for c in cfg.get("union_cases", []):
+        gs = []
+        for k, gi in enumerate(c["grids"]):
+            e = np.array(gi["els"], dtype="uint32").T
+            gs.append(Grid(general_coords(gi["nv"], rng) + 20.0 * k, e, np.array(gi["dom"], dtype="uint32")))
+        kw = {"normalize_domain_indices": c["mode"] == 0}
+        if c["given"] is not None:
+            kw = {"domain_indices": c["given"]}
+        with warnings.catch_warnings():
+            warnings.simplefilter("ignore")
+            u = union(gs, swapped_normals=c["swapped"], **kw)
+        counter[0] += 1
+        check_union_property(gs, u, c["swapped"], c["mode"], c["given"], "replayed union case", fails)
+    for c in cfg.get("derived_cases", []) + cfg.get("geom_cases", []):
+        v = np.array([[q(x) for x in col] for col in c["vs"]]).T
+        e = np.array(c["els"], dtype="uint32").T
+        g, kind, name = try_grid(v, e, np.array(c["dom"], dtype="uint32") if "dom" in c else None)
+        if g is None:
+            continue
+        check_grid_relations(g, "replayed grid %s" % c["els"], fails, counter)
+        if "dom" in c:
+            check_derived(g, "replayed grid %s" % c["els"], fails, counter, rng)
+    out["search_evals"] += counter[0]
 
 
 def main():
@@ -601,6 +728,8 @@ def main():
     if "search" in parts:
         run_search(rng, thorough, out)
     if "recheck" in parts:
+        recheck_cases(cfg, rng, out)
+    if "recheck" in parts:
         # the relations of the search on explicitly given element lists (replays, correspondence disagreements)
         counter = [0]
         for gi in cfg.get("grids", []):
@@ -615,7 +744,7 @@ def main():
                 for f in out["failures"]:
                     f["data"]["els"] = gi["els"]
                     f["data"]["nv"] = nv
-        out["search_evals"] = counter[0]
+        out["search_evals"] += counter[0]
     print("@@JSON " + json.dumps(out))
 
 
